@@ -150,7 +150,7 @@ def _manager_strong(rep: C.Report, tier: str):
             rep.violation("WallGoManager.wallSpeedLTE() raises for a strong transition for which the configured hydrodynamics settings give an LTE velocity",
                           dict(info, error=f"{type(ex).__name__}: {str(ex)[:200]}"), finding_key="C05:manager-strong")
             continue
-        if abs(got - want) > 1e-6:
+        if not abs(got - want) <= 1e-06:
             hy = m.hydrodynamics
             rep.violation("WallGoManager.wallSpeedLTE() differs from the LTE velocity obtained with the configured hydrodynamics settings",
                           dict(info, wallSpeedLTE=got, window_used=[float(hy.TMinHydro / hy.Tnucl), float(hy.TMaxHydro / hy.Tnucl)]),
@@ -208,11 +208,11 @@ def search(rep: C.Report, tier: str, broken):
             err, ok, res = HC.polish(th, branch, vlte, vp, vm, Tp, Tm)
             tn = h.solveHydroShock(vlte, vp, Tp)
             info.update(vp=vp, vm=vm, Tp=Tp, Tm=Tm, entropy_mismatch=ent, backward_error=err, shockTn=float(tn))
-            if abs(ent) > 1e-8 * Tp:
+            if not abs(ent) <= 1e-08 * Tp:
                 rep.violation("LTE matching does not satisfy T+ gamma+ = T- gamma-", info, finding_key="C05:entropy")
-            if not ok or err > 5e-5:
+            if not ok or not err <= 5e-05:
                 rep.violation("LTE matching does not conserve energy-momentum", info, finding_key="C05:conservation")
-            if abs(tn - Tn) > 1e-4 * Tn:
+            if not abs(tn - Tn) <= 0.0001 * Tn:
                 rep.violation("LTE matching does not reach the nucleation temperature ahead of the shock", info, finding_key="C05:Tn")
             if not (h.vMin * (1 - 1e-9) <= vlte <= h.vJ):
                 rep.violation("LTE velocity outside the deflagration/hybrid window", info, finding_key="C05:window")
@@ -248,6 +248,6 @@ def search(rep: C.Report, tier: str, broken):
                 idx = [i for i, s in enumerate(signs) if s < 0]
                 # the grid ends 2 % below the top of the window (the stated margin): a negative mismatch at ANY of its points, after positive ones,
                 # means an LTE root exists at least that far inside the window
-                if idx and 0 < idx[0]:
+                if idx and (not 0 >= idx[0]):
                     rep.violation("runaway sentinel returned although the entropy mismatch changes sign inside the window",
                                   info, finding_key="C05:runaway")
